@@ -605,14 +605,14 @@ Qed.
 
 Lemma zseq_In a n x : In x (zseq a n) <-> a <= x < a + Z.of_nat n.
 Proof.
-  unfold zseq. rewrite in_map_iff. split.
+  rewrite zseq_map_seq. rewrite in_map_iff. split.
   - intros (k & <- & Hk). apply in_seq in Hk. lia.
   - intros H. exists (Z.to_nat (x - a)). split; [lia|]. apply in_seq. lia.
 Qed.
 
 Lemma zseq_NoDup a n : NoDup (zseq a n).
 Proof.
-  unfold zseq. apply NoDup_map_inj_in; [|apply seq_NoDup]. intros x y _ _ H. lia.
+  rewrite zseq_map_seq. apply NoDup_map_inj_in; [|apply seq_NoDup]. intros x y _ _ H. lia.
 Qed.
 
 (* ---- 11. distinct logical positions live in distinct slots -------------------------- *)
